@@ -474,6 +474,29 @@ func execute(f flow, wd world, plan faultPlan) (n int, key, what string, ops []s
 			return n, "bystander-record-changed", fmt.Sprintf("record %s of another node/token was altered or removed (call error: %v)", strings.Split(k, "/")[0], rerr), ops
 		}
 	}
+	// a failed call leaves every node record that existed before it as it was
+	// (for a node rotation this includes the record the rotating node is still
+	// using: the call registers a NEW key and failed to do so)
+	if rerr != nil {
+		// the record the call is about (the requesting key; for a rotation the NEW
+		// key) is the call's own subject, not "another" record
+		subject := ""
+		switch {
+		case c.newActor != nil:
+			subject = "NodeInformation/" + c.newActor.KeyID
+		case c.actor != nil:
+			subject = "NodeInformation/" + c.actor.KeyID
+		}
+		for k, v := range before {
+			if strings.HasPrefix(k, "NodeInformation/") && k != subject && !bytes.Equal(v, after[k]) {
+				state := "altered"
+				if _, ok := after[k]; !ok {
+					state = "removed"
+				}
+				return n, "existing-node-record-" + state + "-by-failed-call", fmt.Sprintf("node record %s, stored before the call, was %s by a call that returned an error (%v)", k, state, rerr), ops
+			}
+		}
+	}
 	return n, "", "", ops
 }
 
